@@ -157,15 +157,18 @@ def update_tags_case(rng):
     cfgv = refimpl.render(tree, old)
     tags = [x for t in c09.gen_tagset(rng, vp, tree, old) for x in t.split()]
     tags_branch = sorted(rng.sample(tags, rng.randint(0, len(tags))))
-    scope = rng.choice(["default", "default", "global", "branch"])
+    cfg_scope = rng.choice(["default", "default", "global", "branch"])
+    cli_scope = rng.choice([None, None, "default", "global", "branch"])
+    scope = cli_scope or cfg_scope                     # the scope in force: --tag-scope overrides the configured one
     rx = re.compile(refimpl.ref_regex(tree))
     valid = [t for t in (tags_branch if scope == "branch" else tags) if rx.fullmatch(t) and c09._date_ok(tree, t)]
     start = c09.expected_start(scope, cfgv, valid)
-    args = ["update", "--no-fetch"] + projgen.cli_flags({"date": [d2.year, d2.month, d2.day], "flags": flags})
-    case = {"kind": "update-tags", "vp": vp, "config_version": cfgv, "tags": tags, "branch_tags": tags_branch, "scope": scope, "start": start, "args": args}
+    args = ["update", "--no-fetch"] + projgen.cli_flags({"date": [d2.year, d2.month, d2.day], "flags": flags}) + (["--tag-scope", cli_scope] if cli_scope else [])
+    case = {"kind": "update-tags", "vp": vp, "config_version": cfgv, "tags": tags, "branch_tags": tags_branch, "scope": scope, "cfg_scope": cfg_scope,
+            "cli_scope": cli_scope, "start": start, "args": args}
     with sandbox.Project("c01t") as p:
         p.write_text("bumpver.toml", '[bumpver]\ncurrent_version = %s\nversion_pattern = %s\ntag_scope = "%s"\ncommit = false\n[bumpver.file_patterns]\n"bumpver.toml" = [\'current_version = "{version}"\']\n' % (
-            json.dumps(cfgv), json.dumps(vp), scope))
+            json.dumps(cfgv), json.dumps(vp), cfg_scope))
         p.add_fake_vcs("git")
         p.fake_set("tags", "".join(t + "\n" for t in tags))
         p.fake_set("tags_branch", "".join(t + "\n" for t in tags_branch))
